@@ -870,6 +870,34 @@ struct Exec
             p.call = [=]() {
                 auto a = w.as<Variable>(v1), b = w.as<Variable>(v2);
                 std::string cid = (a != nullptr && b != nullptr) ? sim::connectionIdBetween(a, b) : std::string();
+                if (add && !four && a != nullptr && b != nullptr && a != b && !a->hasEquivalentVariable(b) && !b->hasEquivalentVariable(a)) {
+                    // a new equivalence made without identifiers has none: no mapping id, and no connection id other than one
+                    // that the connection between the two components carries already (whatever an earlier equivalence of
+                    // the same two variables had went away with it)
+                    std::set<std::string> carried {""};
+                    auto ca = std::dynamic_pointer_cast<Component>(a->parent()), cb = std::dynamic_pointer_cast<Component>(b->parent());
+                    if (ca != nullptr && cb != nullptr) {
+                        for (size_t i = 0; i < ca->variableCount(); ++i) {
+                            auto x = ca->variable(i);
+                            for (size_t e = 0; e < x->equivalentVariableCount(); ++e) {
+                                auto y = x->equivalentVariable(e);
+                                if (y != nullptr && y->parent() == cb) {
+                                    carried.insert(Variable::equivalenceConnectionId(x, y));
+                                    carried.insert(Variable::equivalenceConnectionId(y, x));
+                                }
+                            }
+                        }
+                    }
+                    bool r = Variable::addEquivalence(a, b);
+                    if (r) {
+                        std::string m1 = Variable::equivalenceMappingId(a, b), m2 = Variable::equivalenceMappingId(b, a);
+                        std::string c1 = Variable::equivalenceConnectionId(a, b), c2 = Variable::equivalenceConnectionId(b, a);
+                        if (!m1.empty() || !m2.empty() || carried.count(c1) == 0 || carried.count(c2) == 0) {
+                            return "true, but the new equivalence has identifiers from nowhere: mapping '" + m1 + "'/'" + m2 + "' connection '" + c1 + "'/'" + c2 + "'";
+                        }
+                    }
+                    return retOf(r);
+                }
                 return retOf(!add ? Variable::removeEquivalence(a, b) : four ? Variable::addEquivalence(a, b, "map_s" + str(n), cid.empty() ? "conn_s" + str(n) : cid) : Variable::addEquivalence(a, b));
             };
             return p;
@@ -2034,8 +2062,23 @@ Plan generate(Rng &rng, const Opts &opts, uint64_t runIndex)
     for (long i = 0; i < n; ++i) {
         unsigned r = unsigned(rng.below(100));
         if (eqstress && rng.chance(2, 3)) {
-            unsigned k = unsigned(rng.below(10));
-            if (k < 3) {
+            unsigned k = unsigned(rng.below(12));
+            if (k >= 10) {
+                // an equivalence made without identifiers is given one kind of identifier only, removed and made again: the
+                // second one starts without identifiers like the first
+                long a = long(rng.below(8)), b = long(rng.below(8));
+                p.steps.push_back(mk("Variable.addEquivalence#2", {a, b, 0, B_GOOD, 0, 0}));
+                long edits = rng.range(1, 3);
+                for (long e = 0; e < edits; ++e) {
+                    p.steps.push_back(mk("Variable.editEquivalenceIds", {rng.chance(1, 2) ? a : b, long(rng.below(4)), rng.chance(3, 4) ? 3 : 2, B_GOOD, 0, long(rng.below(5))}));
+                }
+                if (rng.chance(1, 3)) {
+                    p.steps.push_back(mk("Variable.removeAllEquivalences", {rng.chance(1, 2) ? a : b, 0, 0, B_GOOD, 0, 0}));
+                } else {
+                    p.steps.push_back(mk("Variable.removeEquivalence", {a, b, 0, B_GOOD, 0, 0}));
+                }
+                p.steps.push_back(mk("Variable.addEquivalence#2", {a, b, 0, B_GOOD, 0, 0}));
+            } else if (k < 3) {
                 p.steps.push_back(mk("DROP", {long(K_VAR), long(rng.below(8))}));
             } else if (k < 6) {
                 p.steps.push_back(mk("Variable.removeEquivalence", {long(rng.below(8)), long(rng.below(8)), 0, B_GOOD, 0, 0}));
